@@ -168,7 +168,13 @@ pub fn execute(case: &Case, v: Variant) -> Result<Vec<Entry>, String> {
             prev.connect(dst, None);
         }
         drop(junk);
-        let rt = Builder::seeded(3).quiet().cqueue_options(v.n, Duration::from_nanos(v.t_ns)).build(sim.freeze());
+        #[allow(unused_mut)]
+        let mut b = Builder::seeded(3).quiet();
+        #[cfg(feature = "cq")]
+        {
+            b = b.cqueue_options(v.n, Duration::from_nanos(v.t_ns));
+        }
+        let rt = b.build(sim.freeze());
         rt.run().map(|_| ()).map_err(|e| format!("{e}"))
     });
     SCRIPT.with(|s| *s.borrow_mut() = None);
